@@ -123,7 +123,7 @@ class SurfaceFactory:
         ry = kwargs.get('ry', 0)
 
         if index == 0:  # object surface
-            z = -thickness
+            z = -float(thickness)  # plain float (a numpy integer is rejected by the ray classes)
         elif index == 1:
             z = 0  # first surface, always at zero
         else:
